@@ -100,6 +100,7 @@ func (in *Interp) lookupMethod(typ types.Type, meth *types.Func) *ssa.Function {
 
 func (in *Interp) visitInstr(fr *frame, instr ssa.Instruction) continuation {
 	in.steps++
+	in.curFn = fr.fn
 	if in.steps > in.StepBudget {
 		panic(budgetPanic{fmt.Sprintf("instruction budget %d exceeded", in.StepBudget)})
 	}
